@@ -364,6 +364,41 @@ ParseText(text, po) == Parse(Lex(text, po.lex), po).res
 DefaultParse == [flags |-> <<>>, defaults |-> <<>>, nk |-> FALSE, nv |-> TRUE, sl |-> FALSE, sb |-> FALSE,
                  lex |-> DefaultLex]
 
+(* --------------------------------------------- documents as token symbols -- *)
+SA == <<97>>   SB == <<98>>   SC == <<99>>   SUA == <<65>>
+\* the flags of the platform are fixed in the model: win32 on, x360 off, user flag "u" on
+SWin32 == <<119, 105, 110, 51, 50>>
+SX360 == <<120, 51, 54, 48>>
+SU == <<117>>
+ModelDefaults == <<<<SWin32, TRUE>>, <<SX360, FALSE>>>>
+ModelFlags == <<<<SU, TRUE>>>>
+Q(s) == <<DQ>> \o s \o <<DQ>>
+SymText(y) ==
+    CASE y = "a"   -> Q(SA) \o <<SP>>
+      [] y = "b"   -> SB \o <<SP>>                                  \* a bare word
+      [] y = "A"   -> Q(SUA) \o <<SP>>
+      [] y = "n"   -> Q(<<120, LF>>) \o <<SP>>                       \* a string with a line break inside
+      [] y = "nl"  -> <<LF>>
+      [] y = "{"   -> <<LBRC>>
+      [] y = "}"   -> <<RBRC>>
+      [] y = "on"  -> <<LBRK>> \o SWin32 \o <<RBRK>>
+      [] y = "off" -> <<LBRK, BANG, 85, RBRK>>                       \* [!U]: folded, user flag, inverted
+      [] y = "="   -> <<EQS>>
+      [] y = "("   -> <<LPAR, 120, RPAR>>                            \* (x): a token the loop refuses
+      [] y = "#"   -> <<HASH, 68, SP>>                               \* #D: a directive, folded
+      [] y = ","   -> <<COMMA>>
+      [] y = "]"   -> <<RBRK, SP>>                                   \* the tokenizer refuses it
+SymKind(y) == CASE y \in {"a", "b", "A", "n"} -> "STR" [] y = "nl" -> "NL" [] y = "{" -> "OPEN"
+                [] y = "}" -> "CLOSE" [] y \in {"on", "off"} -> "FLAG" [] y = "=" -> "EQ" [] y = "]" -> "ERR"
+                [] y = "(" -> "PAREN" [] y = "#" -> "DIR" [] y = "," -> "COMMA"
+Render(syms) == FoldLeft(LAMBDA acc, y : acc \o SymText(y), <<>>, syms)
+\* kinds the lexer must produce: up to the first refused symbol, else EOF at the end
+RenderKinds(syms) ==
+    LET bad == SelectInSeq(syms, LAMBDA y : y = "]") IN
+    IF bad = 0 THEN [i \in 1..Len(syms) |-> SymKind(syms[i])] \o <<"EOF">>
+    ELSE [i \in 1..bad |-> SymKind(syms[i])]
+
+
 \* every branch label Step can produce (vacuity checks count them)
 Branches == {"lex_error", "err_newline_key", "err_blockflag_no_newline", "crash_replace_empty",
              "blockflag_replace", "blockflag_append", "blockflag_off", "err_newline_value",
